@@ -24,8 +24,8 @@ RULE = (
     "(1) fresh interpreters under PYTHONHASHSEED in {0,1,2,3,<2 drawn>} (library JSON and CLI stdout); (2) registries built "
     "while directory enumeration (os.scandir / os.listdir / os.walk) returns entries in a Hypothesis-drawn permutation, on the "
     "shipped and on generated keyword directories; (3) a rule-based state machine over histories: scan on a shared scanner, "
-    "scan on a fresh scanner, rebuild the registry, scan through the CLI - every result must equal the first result for the "
-    "same (document, depth); (4) 8 threads sharing one scanner (smoke test). Non-trivial = the document's tree contains a tie "
+    "scan on a fresh scanner, rebuild the registry, scan through the CLI - every result must equal the result of a fresh interpreter "
+    "for the same (document, depth) and the first result in the history; documents come with letter-case variants; (4) 8 threads sharing one scanner (smoke test). Non-trivial = the document's tree contains a tie "
     "(two hits with equal span in one child list / parent-child pair); distinct by document hash."
 )
 ASSUMPTIONS = [
@@ -271,8 +271,20 @@ def check_dirorder(case) -> Outcome:
 
 
 # ---- (3) histories -------------------------------------------------------------------------------------
+_baseline_cache: dict = {}
+
+
+def baseline(doc: bytes, k, cli=False):
+    """result of scanning doc alone in a fresh interpreter (pristine module state): the model of the history machine"""
+    key = (doc, k, cli)
+    if key not in _baseline_cache:
+        _baseline_cache[key] = scan_in_subprocess([{"data": doc, "depth": k}], 0, cli)[0]
+    return _baseline_cache[key]
+
+
 def replay_history(steps):
-    """re-executes a recorded history without Hypothesis; returns an Outcome"""
+    """re-executes a recorded history without Hypothesis; every result must equal the fresh-interpreter baseline for the
+    same (document, depth) and the first result seen in this history. Returns an Outcome."""
     from multidecoder.json_conversion import tree_to_json
     from multidecoder.multidecoder import Multidecoder
     from multidecoder.registry import build_registry
@@ -282,7 +294,6 @@ def replay_history(steps):
     o = Outcome()
     shared = Multidecoder()
     model = {}
-    clim = {}
     for st_ in steps:
         op, doc, k = st_["op"], st_.get("doc", b""), st_.get("k")
         if op == "rebuild":
@@ -290,9 +301,9 @@ def replay_history(steps):
             continue
         if op == "cli":
             out, _ = run_main([], doc)
-            if doc in clim and clim[doc] != out:
-                o.violate("history:cli-output-changed", {"doc": doc, "steps": len(steps)})
-            clim.setdefault(doc, out)
+            out = out.decode("utf-8", "replace")
+            if out != baseline(doc, None, cli=True):
+                o.violate("history:cli-output-differs-from-fresh-process", {"doc": doc, "steps": len(steps)})
             continue
         md = shared if op == "shared" else Multidecoder()
         t = tree_to_json(md.scan(doc) if k is None else md.scan(doc, k))
@@ -300,6 +311,8 @@ def replay_history(steps):
         if key in model and model[key] != t:
             o.violate("history:result-changed:" + op, {"doc": doc, "k": k, "steps": len(steps)})
         model.setdefault(key, t)
+        if t != baseline(doc, k):
+            o.violate("history:result-differs-from-fresh-process:" + op, {"doc": doc, "k": k, "steps": len(steps)})
         if has_tie(t):
             o.nontrivial = True
     return o
@@ -309,29 +322,65 @@ def check_history(case) -> Outcome:
     return replay_history(case["steps"])
 
 
+def case_variants(d: bytes):
+    """near variants of a document (letter case per word / per dotted label): caches keyed too coarsely confuse them"""
+    import re as _re
+
+    def per_label(fn):
+        return _re.sub(rb"[A-Za-z][A-Za-z0-9-]*", lambda m: fn(m.group()), d)
+
+    vs = [d, d.lower(), d.upper(), d.swapcase(), per_label(lambda w: w[:1].upper() + w[1:].lower())]
+    # capitalise every second word/label only
+    cnt = [0]
+
+    def alt(w):
+        cnt[0] += 1
+        return w[:1].upper() + w[1:].lower() if cnt[0] % 2 == 0 else w.lower()
+
+    vs.append(per_label(alt))
+    out = []
+    for v in vs:
+        if v not in out:
+            out.append(v)
+    return out
+
+
+def history_pool(seed):
+    dotted = st.tuples(st.lists(st.sampled_from([b"cdn", b"www", b"mail", b"evil-site", b"contoso-updates", b"files"]), min_size=1, max_size=3).map(b".".join), st.sampled_from([b"com", b"org", b"net"])).map(lambda t: b"ping " + t[0] + b"." + t[1] + b" now")
+    base = draw_corpus(st.one_of(tie_docs(), tie_docs(), dotted), 8, seed + 17)
+    pool = []
+    for d in base:
+        pool.append(case_variants(d))
+    return pool
+
+
 def run_histories(ctx, shard, nshards, seed, budget):
-    docs_pool = draw_corpus(tie_docs(), 12, seed + 17)
+    pool = history_pool(seed)
+
+    def pick(i, v):
+        vs = pool[i % len(pool)]
+        return vs[v % len(vs)]
 
     class Machine(RuleBasedStateMachine):
         def __init__(self):
             super().__init__()
             self.steps = []
 
-        @rule(i=st.integers(0, len(docs_pool) - 1), k=st.sampled_from([None, None, 1, 2, 3, 10]))
-        def scan_shared(self, i, k):
-            self.steps.append({"op": "shared", "doc": docs_pool[i], "k": k})
+        @rule(i=st.integers(0, len(pool) - 1), v=st.integers(0, 5), k=st.sampled_from([None, None, 1, 2, 10]))
+        def scan_shared(self, i, v, k):
+            self.steps.append({"op": "shared", "doc": pick(i, v), "k": k})
 
-        @rule(i=st.integers(0, len(docs_pool) - 1), k=st.sampled_from([None, 1, 2, 10]))
-        def scan_fresh(self, i, k):
-            self.steps.append({"op": "fresh", "doc": docs_pool[i], "k": k})
+        @rule(i=st.integers(0, len(pool) - 1), v=st.integers(0, 5), k=st.sampled_from([None, 2]))
+        def scan_fresh(self, i, v, k):
+            self.steps.append({"op": "fresh", "doc": pick(i, v), "k": k})
 
         @rule()
         def rebuild_registry(self):
             self.steps.append({"op": "rebuild"})
 
-        @rule(i=st.integers(0, len(docs_pool) - 1))
-        def scan_via_cli(self, i):
-            self.steps.append({"op": "cli", "doc": docs_pool[i]})
+        @rule(i=st.integers(0, len(pool) - 1), v=st.integers(0, 5))
+        def scan_via_cli(self, i, v):
+            self.steps.append({"op": "cli", "doc": pick(i, v)})
 
         def teardown(self):
             # the whole history is executed (and checked) once it is complete, so that it replays without Hypothesis
